@@ -80,6 +80,30 @@ def validate_enum(ctx, n, nshards):
     ctx.sample(dict(kind='enum', event=evs[0][1][min(5, len(evs[0][1]) - 1)]))
 
 
+def validate_repo_tests(ctx):
+    """spf2 calls made by the repository's own tests (harness/recorder.py), validated by Trace_Sp"""
+    from .. import repotrace
+    d = repotrace.record(repotrace.GROUP_TESTS, None)
+    ev = d['sp']
+    if not ev:
+        raise core.MachineryError('the repository tests produced no spf2 events: ' + d['pytest_tail'])
+    nsh = 8
+    size = (len(ev) + nsh - 1) // nsh
+    payloads = [(s_ * size, dict(first=False, last=False, events=ev[s_ * size:(s_ + 1) * size]), len(ev[s_ * size:(s_ + 1) * size])) for s_ in range(nsh) if ev[s_ * size:(s_ + 1) * size]]
+    acc, rej, results = tlc.validate_payloads('pauli/Trace_Sp.tla', 'pauli/Trace_Sp.cfg', payloads)
+    for r in results:
+        ctx.states += r.distinct
+        ctx.transitions += r.generated
+    ctx.models.append(dict(model='Trace_Sp[repository tests]', events=len(ev), accepted=acc, rejected=len(rej), pytest=d['pytest_tail'], exhaustive=False))
+    ctx.traces += len(ev)
+    for e in ev:
+        ctx.case(('repo', e['op'], repr(e.get('v0')), repr(e.get('v1')), repr(e.get('m'))))
+    for gi, info in rej:
+        e = ev[gi]
+        ctx.violation('C09:%s:repository-test' % {'ft': 'find_transvection', 'inv': 'inverse', 'from_int': 'from_int_tuple', 'to_int': 'to_int_tuple', 'member': 'rand_SpF2'}[e['op']],
+                      'a call made by the repository tests is rejected by Trace_Sp: ' + e['op'], e)
+
+
 def run(ctx):
     from numqi.group import spf2
     import numqi
@@ -168,6 +192,7 @@ def run(ctx):
         e = ev[gi]
         key = {'ft': 'C09:find_transvection:maps-v0-to-v1', 'rand': 'C09:rand_SpF2:valid', 'index': 'C09:rand_SpF2:return-kinds'}[e['op']]
         ctx.violation(key, 'event rejected by Trace_Sp: ' + e['op'], e)
+    validate_repo_tests(ctx)
     ctx.sample(dict(kind='find_transvection', event=[e for e in ev if e['op'] == 'ft'][37]))
     ctx.sample(dict(kind='rand_SpF2', event=[e for e in ev if e['op'] == 'rand'][0]))
 
